@@ -1,6 +1,7 @@
 """C14 — I/O failures are reported, contained and recovered from."""
 GEN = True           # go/extract/c03.go (registered for C14 too): BlugeGen.C03 (error branches of persisterLoop / mergerLoop,
                      # clean-up on a failed Remove) and the C02 layer the theorems are stated over
+EXTRACT_DEPS = ("c03.go", "c02.go", "c12.go")   # generator files this property's generator calls (regenerates the layers its theorems import)
 STATELESS = False
 NO_SHRINK = True     # the trace of a case depends on goroutine scheduling: a shrunk script is a different run
 SEARCH_SCALE = 1
@@ -34,6 +35,8 @@ def signature(rec):
         return "persist-not-exact"
     if v.startswith("bad:async-error-not-fired"):
         return "async-error-not-fired"
+    if v.startswith("bad:acknowledgement-never-delivered"):
+        return "parked-callback-dropped"
     if v.startswith("bad:error-not-surfaced"):
         return "persist-error-not-returned-to-batch"
     if v.startswith("bad:retry-does-not-cover") or v.startswith("bad:retried-batch-lost"):
